@@ -10,7 +10,7 @@ package cert
 // Accepted quorum certificates: a quorum of participants, the certified block is known and
 // carries the view the certificate claims, and every participant's signature is valid over
 // exactly that block's bytes.
-//@ func (*Authority).VerifyQuorumCert property C02,C10
+//@ func (*Authority).VerifyQuorumCert property C02,C10,C20
 //@   requires awf(c) && hotstuff.genesisBlock != nil
 //@   ensures [quorum] result == nil && !isGenesisHash(qc.hash) ==> qc.signature != nil && hotstuff.setlen(hotstuff.parts(qc.signature)) >= quorum(c)
 //@   ensures [content] result == nil && !isGenesisHash(qc.hash) ==> has(c.blockchain.blocks, qc.hash) && (forall id hotstuff.ID :: hotstuff.setmem(hotstuff.parts(qc.signature), id) ==> crypto.sigvalid(c.Base, qc.signature, id, hotstuff.blockcontent(c.blockchain.blocks[qc.hash])))
@@ -20,13 +20,13 @@ package cert
 
 // Accepted timeout certificates: a quorum of participants, each with a valid signature over
 // exactly the timed-out view the certificate claims.
-//@ func (*Authority).VerifyTimeoutCert property C02,C10
+//@ func (*Authority).VerifyTimeoutCert property C02,C10,C20
 //@   requires awf(c)
 //@   ensures [quorum] result == nil && tc.view != 0 ==> tc.signature != nil && hotstuff.setlen(hotstuff.parts(tc.signature)) >= quorum(c)
 //@   ensures [content] result == nil && tc.view != 0 ==> (forall id hotstuff.ID :: hotstuff.setmem(hotstuff.parts(tc.signature), id) ==> crypto.sigvalid(c.Base, tc.signature, id, hotstuff.viewcontent(tc.view)))
 //@   modifies alloc
 
-//@ func (*Authority).VerifyPartialCert property C02,C10
+//@ func (*Authority).VerifyPartialCert property C02,C10,C20
 //@   requires awf(c)
 //@   ensures [content] result == nil ==> cert.signature != nil && has(c.blockchain.blocks, cert.blockHash) && (forall id hotstuff.ID :: hotstuff.setmem(hotstuff.parts(cert.signature), id) ==> crypto.sigvalid(c.Base, cert.signature, id, hotstuff.blockcontent(c.blockchain.blocks[cert.blockHash])))
 //@   ensures [inv] blockchain.binv(c.blockchain) && blockchain.bmaps(c.blockchain)
@@ -36,7 +36,7 @@ package cert
 // the stored block it names, which has the view the QC claims.
 //@ pred qcok(c *Authority, qc hotstuff.QuorumCert) = isGenesisHash(qc.hash) || (qc.signature != nil && hotstuff.setlen(hotstuff.parts(qc.signature)) >= quorum(c) && has(c.blockchain.blocks, qc.hash) && c.blockchain.blocks[qc.hash].view == qc.view && (forall id hotstuff.ID :: hotstuff.setmem(hotstuff.parts(qc.signature), id) ==> crypto.sigvalid(c.Base, qc.signature, id, hotstuff.blockcontent(c.blockchain.blocks[qc.hash]))))
 
-//@ func (*Authority).findHighestValidQC property C02,C10
+//@ func (*Authority).findHighestValidQC property C02,C10,C20
 //@   requires awf(c) && hotstuff.genesisBlock != nil
 //@   ensures [valid] err == nil ==> qcok(c, highQC)
 //@   ensures [inv] blockchain.binv(c.blockchain) && blockchain.bmaps(c.blockchain)
@@ -46,7 +46,7 @@ package cert
 // Accepted aggregate certificates: a quorum of participants, each with a valid signature
 // over its own timeout message (its id, the certificate's view, the QC it attested), and
 // the reported high QC is itself a valid QC.
-//@ func (*Authority).VerifyAggregateQC property C02,C10
+//@ func (*Authority).VerifyAggregateQC property C02,C10,C20
 //@   requires awf(c) && hotstuff.genesisBlock != nil
 //@   ensures [quorum] err == nil ==> aggQC.sig != nil && hotstuff.setlen(hotstuff.parts(aggQC.sig)) >= quorum(c)
 //@   ensures [content] err == nil ==> (forall id hotstuff.ID :: hotstuff.setmem(hotstuff.parts(aggQC.sig), id) ==> has(aggQC.qcs, id) && crypto.sigvalid(c.Base, aggQC.sig, id, hotstuff.tmcontent(id, aggQC.view, true, aggQC.qcs[id])))
@@ -58,7 +58,7 @@ package cert
 
 // The certificate a proposal is judged by: its block's QC must be a valid QC (and, with
 // aggregate QCs, the aggregate certificate must verify and its high QC is the block's QC).
-//@ func (*Authority).VerifyAnyQC property C02,C10
+//@ func (*Authority).VerifyAnyQC property C02,C10,C20
 //@   requires awf(c) && hotstuff.genesisBlock != nil && proposal != nil && proposal.Block != nil
 //@   ensures [qc-valid] result == nil ==> qcok(c, proposal.Block.cert)
 //@   ensures [inv] blockchain.binv(c.blockchain) && blockchain.bmaps(c.blockchain)
